@@ -1924,7 +1924,14 @@ func (c *Ctx) mayReturnNilOK(fn *ssa.Function) []int {
 					continue
 				}
 			}
-			if (core.IsNilConst(rr[i]) || c.lazilySetField(fn, rr[i])) && (errIdx < 0 || core.IsNilConst(rr[errIdx]) || !(core.ErrKnownNonNil(rr[errIdx], nil) || core.GuardedBy(ret.Block(), func(cond ssa.Value) (bool, bool) {
+			lazyNil := c.lazilySetField(fn, rr[i]) && !core.GuardedBy(ret.Block(), func(cond ssa.Value) (bool, bool) {
+				x, trueMeansNil, ok := core.NilCmp(cond)
+				if !ok || !c.sameValue(x, rr[i]) {
+					return false, false
+				}
+				return !trueMeansNil, true
+			})
+			if (core.IsNilConst(rr[i]) || lazyNil) && (errIdx < 0 || core.IsNilConst(rr[errIdx]) || !(core.ErrKnownNonNil(rr[errIdx], nil) || core.GuardedBy(ret.Block(), func(cond ssa.Value) (bool, bool) {
 				x, trueMeansNil, ok := core.NilCmp(cond)
 				if !ok || x != rr[errIdx] {
 					return false, false
